@@ -272,9 +272,61 @@ def random_cases(ctx, n):
     run_batch(ctx, batch[:n])
 
 
+def run_discriminated_forbid(ctx, n, only=None):
+    """forbid_extra_keys under a class-level discriminator: the discriminator key is an accepted key of every variant
+    (also of a variant WITHOUT init fields), aliases count, anything else is reported — exactly the strangers"""
+    from mashumaro import DataClassDictMixin, field_options
+    from mashumaro.config import BaseConfig
+    from mashumaro.exceptions import ExtraKeysError
+    from mashumaro.types import Discriminator
+
+    rng = ctx.rng
+    for i in range(n):
+        spec = only or {"nfields": rng.choice([0, 0, 1, 2]), "aliased": rng.random() < 0.4, "strangers": rng.sample(["zz", "type_", "f0_", ""], rng.choice([0, 0, 1, 2])),
+                        "present": rng.random() < 0.8, "tagfield": rng.choice(["type", "kind", "it's"])}
+        case = {"discriminated_forbid": spec}
+        ctx.count(case, True, kind=f"discr-forbid:fields={spec['nfields']}")
+        tf = spec["tagfield"]
+        names = []
+        try:
+            cfg = type("Config", (BaseConfig,), {"discriminator": Discriminator(field=tf, include_subtypes=True), "forbid_extra_keys": True})
+            Base = dataclasses.dataclass(type(f"DF{i}_B", (DataClassDictMixin,), {"__annotations__": {}, "Config": cfg, "__module__": __name__}))
+            ann, ns = {}, {tf: "v"}          # the tag is a plain class attribute: not a field
+            for k in range(spec["nfields"]):
+                ann[f"f{k}"] = int
+                ns[f"f{k}"] = dataclasses.field(default=7, metadata=field_options(alias=f"F{k}") if spec["aliased"] else {})
+            ns["__annotations__"] = ann
+            ns["__module__"] = __name__
+            V = dataclasses.dataclass(type(f"DF{i}_V", (Base,), ns))
+            for c in (Base, V):
+                globals()[c.__name__] = c
+                names.append(c.__name__)
+            d = {tf: "v"}
+            if spec["present"]:
+                for k in range(spec["nfields"]):
+                    d[f"F{k}" if spec["aliased"] else f"f{k}"] = k
+            for sname in spec["strangers"]:
+                d[sname] = 1
+            strangers = set(spec["strangers"]) - {tf}
+            try:
+                r = Base.from_dict(dict(d))
+                got = ("ok", type(r).__name__.split("_")[-1])
+            except ExtraKeysError as e:
+                got = ("extra", sorted(map(str, e.extra_keys)))
+            except Exception as e:  # noqa
+                got = ("other", f"{type(e).__name__}: {e}"[:200])
+        finally:
+            for nm in names:
+                globals().pop(nm, None)
+        exp = ("extra", sorted(strangers)) if strangers else ("ok", "V")
+        if list(got) != list(exp):
+            ctx.violation(case, {"got": list(got), "input_keys": sorted(d)}, {"expected": list(exp)}, "the discriminator key is an accepted key; exactly the unknown keys are reported", lambda f: False)
+
+
 def run(ctx):
     ctx.rule = RULE
     ctx.lean_check("Mashu.Props.C09", THEOREMS, extra_targets=["Mashu.Dispatch"])
+    run_discriminated_forbid(ctx, 150 if ctx.tier == "quick" else 2000)
     exhaustive_one_field(ctx)
     ctx.exhaustive = False
     n = 4000 if ctx.tier == "quick" else 60000
@@ -287,5 +339,8 @@ def run(ctx):
 
 def replay(ctx, body):
     c = body["case"]
+    if "discriminated_forbid" in c:
+        run_discriminated_forbid(ctx, 1, only=c["discriminated_forbid"])
+        return ctx.finish()
     run_batch(ctx, [(c["fields"], c["allow_not_by_alias"], c["forbid_extra_keys"], c["input"])])
     return ctx.finish()
